@@ -255,6 +255,29 @@ def h_sctp_two_data(ctx, role):
         ctx.observe("cum", t._last_received_tsn)
 
 
+def h_sctp_many_gaps(ctx, n):
+    """Targeted, concrete count: a peer that has sent every second TSN (n separate holes, never
+    filled) sends one more DATA chunk: building the SACK with n+1 gap blocks must not raise."""
+    with Env(crc=(lambda d: 0) if sx.active() else None) as env:
+        t, ch = _mk_transport(env, "established_server")
+        base = 2000  # next expected TSN
+        t._sack_misordered = set(base + 2 * k for k in range(1, n + 1))
+        c = sctp.DataChunk(flags=3)
+        c.tsn = base + 2 * (n + 1) + 2 * ctx.choice("further_ahead", [0, 3])  # (concrete per path: the set is hashed)
+        c.stream_id = 0
+        c.stream_seq = ctx.int("ssn", 1, 9)
+        c.protocol = 53
+        c.user_data = b"z"
+        data = sctp.serialize_packet(5000, 5000, 0x11223344, c)
+        if not sx.active():
+            data = _crc_patch(data)
+        sx.run(t._handle_data(data))
+        env.drain()
+        ctx.reach("many-gaps-handled")
+        ctx.check(t._association_state == State.ESTABLISHED, "association-still-established")
+        ctx.observe("n", len(t._sack_misordered))
+
+
 def h_sctp_init_then_valid(ctx, role):
     """A stray / duplicated INIT (well formed, verification tag 0, every field symbolic) reaches an
     ESTABLISHED association; the peer's next two genuine messages must still be delivered."""
@@ -722,6 +745,7 @@ HARNESSES = {
         opts=NC_OPTS,
         twin="data-handled",
     ),
+    "sctp-many-gaps": Harness("sctp-many-gaps", h_sctp_many_gaps, lambda tier: [{"n": n} for n in ((300, 16380) if tier == "quick" else (300, 16379, 16380, 20000))], style="NC (targeted, concrete count)", bounds="300 and 16380 (quick) / 300, 16379, 16380 and 20000 unfilled single-TSN holes in the receive window (every second TSN received), then one more DATA chunk 0 or 3 holes further ahead: the SACK it triggers must not raise (the chunk length field is 16 bit)", encoded=ENC_SCTP, stubs=STUBS, opts={"samples": 1, "path_timeout_s": 600, "max_decisions": 100000}, twin="many-gaps-handled"),
     "sctp-two-data": Harness("sctp-two-data", h_sctp_two_data, lambda tier: [{"role": r} for r in ("client", "server")], style="NC (structure-aware)", bounds="two DATA chunks with independent symbolic 32-bit TSNs, flags 0..7, stream sequence 0..1", encoded=ENC_SCTP, stubs=STUBS, opts=NC_OPTS, twin="two-data-handled"),
     "sctp-then-valid": Harness("sctp-then-valid", h_sctp_then_valid, lambda tier: [{"role": r, "unordered": u} for r in ("client", "server") for u in (False, True)] + [{"role": "client", "unordered": u, "frag": f} for u in (False, True) for f in ("middle", "last")], style="NC + delivery (structure-aware)", bounds="one DATA chunk - a complete message, or a middle / last fragment whose first fragment never comes - with symbolic 32-bit TSN and stream sequence number 2..65535 (ordered or unordered), then two genuine ordered messages", encoded=ENC_SCTP, stubs=STUBS, opts=NC_OPTS, twin="valid-after-bogus-handled"),
     "sack-abandon": Harness("sack-abandon", lambda ctx, **kw: __import__("harness.c06_partial", fromlist=["h_step_sack_abandon"]).h_step_sack_abandon(ctx, **kw), lambda tier: [{"q": 2, "ngaps": 1, "parked": True}, {"q": 2, "ngaps": 2}], style="STEP", bounds="a SACK (symbolic cumulative point and gap blocks) hitting a sender whose partially reliable message is partly transmitted (fragments in flight, unsent tail, symbolic miss counters): processing it must not raise", encoded=ENC_SCTP, stubs=STUBS, twin="sack-over-pr-message-processed", opts={"samples": 1}),
